@@ -10,17 +10,35 @@
      cprec     Token.Precedence() of every token of ctoks (kind 3)
    Codes: 0 agree; 1 twin <> implementation; >= 2 the implementation's own output violates the
    specification side (see props/C15.json). *)
-From Coq Require Import List Arith Bool String.
+From Coq Require Import List Arith Bool String ZArith.
 Import ListNotations.
-From KV Require Import Model.Token Model.Ast Model.ExprParser.
+From KV Require Import Base.Num Model.Token Model.Ast Model.ExprParser Model.ErrPos Model.StmtParser.
 
-Inductive obs := OTree (e : expr) | OErr (p : option nat) | ONone.
+(* what Parser.Parse returned for a whole statement (kind 4), as the Go structs hold it:
+   ORDER BY / GROUP BY items by Name (and direction), LIMIT as (Pos, Start, Count) *)
+(* Start and Count in decimal (fmt %d), so that case files need no integer notation *)
+Inductive golimit := GLimit (p : nat) (start count : string).
+Inductive gostmt :=
+  | GSelect (p : nat) (all : bool) (fields : list expr) (names : list string)
+            (wpos : nat) (w : expr)
+            (order : option (nat * list (string * bool)))     (* Pos, (Name, Order == DESC) *)
+            (group : option (nat * list string))               (* Pos, Names *)
+            (limit : option golimit)
+  | GPut (p : nat) (pairs : list (expr * expr))
+  | GRemove (p : nat) (keys : list expr)
+  | GDelete (p : nat) (wpos : nat) (w : expr) (limit : option golimit).
+
+Inductive obs := OTree (e : expr) | OErr (p : option nat) | ONone
+  | OStmt (g : gostmt).     (* kind 4: the statement was accepted *)
 
 Record case := Case {
   ckind : nat;          (* 0 raw parse (DELETE WHERE e, nothing type-checked)
                            1 accepted statement (WHERE e / SELECT .. WHERE e; ctoks from WHERE on)
                            2 flat operator sequence  a0 o1 a1 .. on  (DELETE WHERE ..)
-                           3 precedence table *)
+                           3 precedence table
+                           4 whole statement of any kind against Model/StmtParser.v:
+                             cobs = OStmt (accepted) or OErr (rejected, by the parser or by the
+                             checker); ctext .. cprec unused *)
   clexsafe : bool;      (* no literal of the tree needs or contains a quote character *)
   ctoks : list token;
   cobs : obs;
@@ -50,6 +68,123 @@ Definition twin_agrees (c : case) : bool :=
       | Some (PErr _) => true
       | _ => false
       end
+  | OStmt _ => false
+  end.
+
+(* ---- 1, kind 4: the statement parser twin against Parser.Parse -------------------------- *)
+
+Definition golimit_of (l : option limit_t) : option golimit :=
+  match l with
+  | Some x => Some (GLimit (l_pos x) (str_of_Z (l_start x)) (str_of_Z (l_count x)))
+  | None => None
+  end.
+
+Definition is_desc (d : dir) : bool := match d with DDesc => true | DAsc => false end.
+
+(* the twin's tree as the Go structs hold it *)
+Definition project (s : stmt) : gostmt :=
+  match s with
+  | StSelect x =>
+      GSelect (s_pos x) (s_all x) (s_fields x) (s_names x) (s_wpos x) (s_where x)
+        (match s_order x with
+         | Some o => Some (o_pos o, map (fun it => (item_name (fst it), is_desc (snd it))) (o_items o))
+         | None => None
+         end)
+        (match s_group x with
+         | Some g => Some (g_pos g, map item_name (g_items g))
+         | None => None
+         end)
+        (golimit_of (s_limit x))
+  | StPut p pairs => GPut p pairs
+  | StRemove p keys => GRemove p keys
+  | StDelete p wp w l => GDelete p wp w (golimit_of l)
+  end.
+
+Fixpoint exprs_eqb (a b : list expr) : bool :=
+  match a, b with
+  | [], [] => true
+  | x :: a', y :: b' => expr_eqb x y && exprs_eqb a' b'
+  | _, _ => false
+  end.
+
+Fixpoint strs_eqb (a b : list string) : bool :=
+  match a, b with
+  | [], [] => true
+  | x :: a', y :: b' => String.eqb x y && strs_eqb a' b'
+  | _, _ => false
+  end.
+
+Fixpoint pairs_eqb (a b : list (expr * expr)) : bool :=
+  match a, b with
+  | [], [] => true
+  | (k, v) :: a', (k', v') :: b' => expr_eqb k k' && expr_eqb v v' && pairs_eqb a' b'
+  | _, _ => false
+  end.
+
+Fixpoint oitems_eqb (a b : list (string * bool)) : bool :=
+  match a, b with
+  | [], [] => true
+  | (n, d) :: a', (n', d') :: b' => String.eqb n n' && Bool.eqb d d' && oitems_eqb a' b'
+  | _, _ => false
+  end.
+
+Definition golimit_eqb (a b : option golimit) : bool :=
+  match a, b with
+  | None, None => true
+  | Some (GLimit p s c), Some (GLimit p' s' c') => Nat.eqb p p' && String.eqb s s' && String.eqb c c'
+  | _, _ => false
+  end.
+
+(* twin tree [a] against the implementation's [b]; the checker has replaced field names by
+   references in the implementation's trees ([unref]) *)
+Definition gostmt_eqb (a b : gostmt) : bool :=
+  match a, b with
+  | GSelect p al fs ns wp w o g l, GSelect p' al' fs' ns' wp' w' o' g' l' =>
+      Nat.eqb p p' && Bool.eqb al al' && exprs_eqb fs (map unref fs') && strs_eqb ns ns'
+      && Nat.eqb wp wp' && expr_eqb w (unref w')
+      && match o, o' with
+         | None, None => true
+         | Some (q, it), Some (q', it') => Nat.eqb q q' && oitems_eqb it it'
+         | _, _ => false
+         end
+      && match g, g' with
+         | None, None => true
+         | Some (q, it), Some (q', it') => Nat.eqb q q' && strs_eqb it it'
+         | _, _ => false
+         end
+      && golimit_eqb l l'
+  | GPut p ps, GPut p' ps' =>
+      Nat.eqb p p' && pairs_eqb ps (map (fun kv => (unref (fst kv), unref (snd kv))) ps')
+  | GRemove p ks, GRemove p' ks' => Nat.eqb p p' && exprs_eqb ks (map unref ks')
+  | GDelete p wp w l, GDelete p' wp' w' l' =>
+      Nat.eqb p p' && Nat.eqb wp wp' && expr_eqb w (unref w') && golimit_eqb l l'
+  | _, _ => false
+  end.
+
+(* The semantic tests parser.go runs in the middle of parsing (Model/StmtParser.hooks) are not
+   modelled; for a statement the implementation rejected at offset p they are read off the
+   observation (Model/StmtParser.observed_hooks). *)
+Definition stmt_agrees (c : case) : bool :=
+  match cobs c with
+  | OStmt g =>
+      (* accepted: the pure syntax accepts and builds the same statement *)
+      match parse_statement (ctoks c) with
+      | SOk s => gostmt_eqb (project s) g
+      | _ => false
+      end
+  | OErr None =>
+      (* rejected at end of input: only the syntax does that *)
+      match parse_statement (ctoks c) with
+      | SErr z => Z.eqb z (-1)
+      | _ => false
+      end
+  | OErr (Some p) =>
+      match parse_with (observed_hooks p) (ctoks c) with
+      | SErr z => Z.eqb z (Z.of_nat p)           (* same offset *)
+      | SOk s => mem_pos p (stmt_positions s)        (* the type checker refused it, at one of its nodes *)
+      | _ => false
+      end
+  | _ => false
   end.
 
 Definition render_agrees (c : case) : bool :=
@@ -104,6 +239,7 @@ Definition flat_ok (c : case) : bool :=
 Definition check_case (c : case) : nat :=
   match ckind c with
   | 3 => if prec_agrees c then 0 else 1
+  | 4 => if stmt_agrees c then 0 else 1
   | k =>
       (* spec verdicts first: they are the arbiter *)
       if (Nat.eqb k 2) && negb (flat_ok c) then 4
